@@ -81,11 +81,28 @@ def _fl(a, d):
     return a / d
 
 
+TOL = [0]
+
+
+def _lt(a, b):
+    """a < b beyond the rounding tolerance (0 for int / Fraction chips)."""
+    return a < b - TOL[0]
+
+
+def _ne(a, b):
+    return abs(a - b) > TOL[0]
+
+
 def check(state, live, hole, rake_fn=None):
     """Return (violations, model pots, facts) for a terminal state."""
     v = []
     facts = {}
     n = state.player_count
+    inexact = any(type(x).__name__ in ('float', 'Decimal')
+                  for x in state.starting_stacks)
+    total = sum(state.starting_stacks)
+    TOL[0] = (type(total)('1e-9') if type(total).__name__ == 'Decimal'
+              else 1e-9) * max(1, total) if inexact else 0
     contrib, antes = contributions_from_log(state)
     pots = ref_pots(state, contrib, antes, live)
     pushes = [op for op in state.operations
@@ -109,7 +126,7 @@ def check(state, live, hole, rake_fn=None):
     if sum(live) == 1:
         w = live.index(True)
         got = sum(op.amounts[w] for op in pushes)
-        if got != total_unraked:
+        if _ne(got, total_unraked):
             v.append(f'lone survivor {w}: pushed {got} != everything '
                      f'collected minus rake {total_unraked} (model pots '
                      f'{pots})')
@@ -126,7 +143,7 @@ def check(state, live, hole, rake_fn=None):
         unrk = raked[p][1]
         ops = by_pot.get(p, [])
         got = sum(op.total_amount for op in ops)
-        if got != unrk:
+        if _ne(got, unrk):
             v.append(f'pot {p}: pushed {got} != model {unrk} (eligible '
                      f'{elig}, model pots {pots})')
         for op in ops:
@@ -140,7 +157,7 @@ def check(state, live, hole, rake_fn=None):
         for b in range(nb):
             bops = per_board.get(b, [])
             S = sum(op.total_amount for op in bops)
-            if S < _fl(unrk, nb):
+            if _lt(S, _fl(unrk, nb)):
                 v.append(f'pot {p} board {b}: share {S} < even share '
                          f'{_fl(unrk, nb)} of {unrk}')
             board = tuple(state.get_board_cards(b))
@@ -171,7 +188,7 @@ def check(state, live, hole, rake_fn=None):
                                  f'(winners by hand type {W})')
                 else:
                     lb = sum(_fl(share, len(w)) for w in inw)
-                    if got_b[i] < lb:
+                    if _lt(got_b[i], lb):
                         v.append(f'pot {p} board {b}: winner {i} got '
                                  f'{got_b[i]} < floor share {lb} (winners '
                                  f'{W}, board share {S})')
@@ -180,11 +197,11 @@ def check(state, live, hole, rake_fn=None):
                 if t in W:
                     q = _fl(op.total_amount, len(W[t]))
                     for k, i in enumerate(W[t]):
-                        if op.amounts[i] < q:
+                        if _lt(op.amounts[i], q):
                             v.append(f'pot {p} board {b} type {t}: winner '
                                      f'{i} below the equal share {q}: '
                                      f'{op.amounts}')
-                        if k > 0 and op.amounts[i] > q:
+                        if k > 0 and _lt(q, op.amounts[i]):
                             v.append(f'pot {p} board {b} type {t}: odd '
                                      f'chips went to {i}, not to the '
                                      f'earliest winner {W[t][0]}: '
@@ -206,7 +223,7 @@ def check(state, live, hole, rake_fn=None):
     for i in range(n):
         bound = sum(min(net[j], net[i]) + dead[j]
                     for j in range(n) if j != i)
-        if state.payoffs[i] > bound:
+        if _lt(bound, state.payoffs[i]):
             v.append(f'player {i} won {state.payoffs[i]} > what the others '
                      f'could lose to him {bound} (contributions {contrib})')
     return v, pots, facts
@@ -215,6 +232,6 @@ def check(state, live, hole, rake_fn=None):
 def _check_payoffs(state, contrib, pushes, v):
     for i in range(state.player_count):
         exp = sum(op.amounts[i] for op in pushes) - contrib[i]
-        if state.payoffs[i] != exp:
+        if _ne(state.payoffs[i], exp):
             v.append(f'payoff of player {i} is {state.payoffs[i]}, pushes '
                      f'minus contribution give {exp}')
